@@ -17,6 +17,36 @@ type ModSpec struct {
 	ImpTable    int  `json:"imp_table"`    // slot whose "st" is imported, -1 none
 	ImpGlobal   int  `json:"imp_global"`   // slot whose funcref global "xg" is imported, -1 none
 	ImpMem      int  `json:"imp_mem"`      // slot whose memory "mem" is imported, -1 none (own memory)
+	// Fail > 0: a module whose instantiation FAILS after its active element
+	// segment has written its own functions into the imported shared table
+	// (slots FailIdx, FailIdx+1): 1 = start function traps, 2 = start function
+	// exits the module with code 2 through host.exit. It exports nothing.
+	Fail    int `json:"fail,omitempty"`
+	FailIdx int `json:"fail_idx,omitempty"`
+}
+
+// buildFailModule: imports st from slot ImpTable, elem (i32.const FailIdx) = [ff0 ff1], start fails.
+func buildFailModule(s ModSpec) []byte {
+	m := &wenc.Module{}
+	var exit uint32
+	if s.Fail == 2 {
+		exit = m.ImportFunc("host", "exit", []wenc.ValType{i32}, nil)
+	}
+	m.Imports = append(m.Imports, wenc.Import{Module: slotName(s.ImpTable), Name: "st", Kind: wenc.ExtTable,
+		Table: wenc.TableType{Elem: funcref, Lim: wenc.Limits{Min: stMin, Max: stMax, HasMax: true}}})
+	k := int32(s.K * 100)
+	ff0 := m.AddFunc(nil, []wenc.ValType{i32}, nil, (&wenc.Code{}).I32Const(k+5).End().B)
+	ff1 := m.AddFunc(nil, []wenc.ValType{i32}, nil, (&wenc.Code{}).I32Const(k+6).End().B)
+	st := &wenc.Code{}
+	if s.Fail == 2 {
+		st.I32Const(2).Call(exit)
+	} else {
+		st.Unreachable()
+	}
+	start := m.AddFunc(nil, nil, nil, st.End().B)
+	m.Start = &start
+	m.Elems = append(m.Elems, wenc.Elem{Mode: 0, TableIdx: 0, Offset: wenc.ConstI32(int32(s.FailIdx)), FuncIdx: []uint32{ff0, ff1}})
+	return m.Encode()
 }
 
 func (s ModSpec) hasST() bool { return s.ExportTable || s.ImpTable >= 0 }
@@ -49,6 +79,9 @@ var (
 // ExportTable). Optional: call_imp chain (ImpFunc), ig_call (ImpGlobal),
 // st_set st_call st_isnull (shared table).
 func buildModule(s ModSpec) []byte {
+	if s.Fail > 0 {
+		return buildFailModule(s)
+	}
 	m := &wenc.Module{}
 	t0p, t0r := []wenc.ValType(nil), []wenc.ValType{i32}
 	t2p, t2r := []wenc.ValType{i32, i32}, []wenc.ValType{i32}
